@@ -238,9 +238,28 @@ impl ReassignmentPath {
     }
 }
 
+impl Dependencies for ReassignmentPath {
+    /// The variable an element / field assignment is rooted at, and the names its indexes use.
+    fn dependencies(&self) -> Vec<super::Dependency> {
+        match self {
+            Self::Ident(ident) => vec![super::Dependency::new(Cow::Borrowed(ident))],
+            Self::ReferenceToSelf(_) => vec![],
+            Self::Index { lhs, index } => {
+                let mut result = lhs.dependencies();
+                result.append(&mut index.net_dependencies());
+                result
+            }
+            Self::DotLookup { lhs, .. } => lhs.dependencies(),
+        }
+    }
+}
+
 impl Dependencies for Reassignment {
     fn dependencies(&self) -> Vec<super::Dependency> {
-        self.value.net_dependencies()
+        // `xs[i] = v` uses xs and i just like it uses v: a closure doing it must capture them
+        let mut result = self.path.net_dependencies();
+        result.append(&mut self.value.net_dependencies());
+        result
     }
 }
 
